@@ -115,7 +115,7 @@ func drawChunks(t *rapid.T, label string, size int) []int {
 }
 
 var plainKinds = []string{"write-msg", "writer", "writer", "writer-fail", "ownbuf", "cipher-writer", "cipher-reader", "readfrom", "control-writer", "mask-helpers", "reject", "shared-send", "send-close", "read-data", "read-msg", "reader", "ping", "ping", "pong", "compiled"}
-var flateKinds = []string{"flate-send", "flate-recv", "flate-writer", "flate-reader"}
+var flateKinds = []string{"flate-send", "flate-recv", "flate-recv", "flate-bytes", "flate-writer", "flate-reader"}
 
 // drawTemplate draws the shape of a session. light = layer 2 (many sessions per case).
 func drawTemplate(t *rapid.T, light bool) template {
@@ -180,7 +180,7 @@ func drawTemplate(t *rapid.T, light bool) template {
 		switch s.Kind {
 		case "ping", "pong", "control-writer":
 			s.Size = s.Size % 126
-		case "flate-send", "flate-recv", "flate-writer", "flate-reader":
+		case "flate-send", "flate-recv", "flate-bytes", "flate-writer", "flate-reader":
 			if s.Size > 16000 {
 				s.Size = 16000
 			}
@@ -834,6 +834,15 @@ func (s *session) ownedPayload(o op) []byte {
 	}
 	s.kept = append(s.kept, keptBuf{p, digest(p), fmt.Sprintf("payload of step %d (%s, len %d, cap %d)", s.pc, o.name, len(p), cap(p))})
 	return p
+}
+
+// keepResult: a result the library handed to the session; it is the session's
+// from then on and is re-checked after every later step.
+func (s *session) keepResult(p []byte, what string) {
+	if len(p) == 0 {
+		return
+	}
+	s.kept = append(s.kept, keptBuf{p, digest(p), fmt.Sprintf("%s at step %d (%d bytes)", what, s.pc, len(p))})
 }
 
 // checkKept verifies that the buffers the session owns still hold its bytes.
@@ -1692,6 +1701,7 @@ func (s *session) stepFlateSend(o op) {
 	}
 	s.logf("%s err=%s wrote=%s", flavour, renderErr(err), renderWire(rec.Bytes()))
 	s.expectInflates(rec.Bytes(), p, "CompressFrame")
+	s.keepResult(cf.Payload, "payload of the frame returned by CompressFrame")
 }
 
 func (s *session) stepFlateRecv(o op) {
@@ -1715,6 +1725,33 @@ func (s *session) stepFlateRecv(o op) {
 	}
 	s.logf("err=%s rsv=%d op=%x payload=%s", renderErr(err), out.Header.Rsv, out.Header.OpCode, digest(out.Payload))
 	s.expect(err == nil && bytes.Equal(out.Payload, p), "DecompressFrame: message not recovered (err=%v)", err)
+	s.keepResult(out.Payload, "message returned by DecompressFrame")
+}
+
+// flate-bytes: Helper.Compress / Helper.Decompress on plain byte slices
+// (DefaultHelper or the session's own helper); both results are kept.
+func (s *session) stepFlateBytes(o op) {
+	p := s.payload(o, 0)
+	h := &wsflate.DefaultHelper
+	flavour := "DefaultHelper"
+	if o.spec.Which%2 == 1 {
+		flavour = "own-helper"
+		if s.helper.Compressor == nil {
+			s.helper = wsflate.Helper{Compressor: flateCtor, Decompressor: flateDtor}
+		}
+		h = &s.helper
+	}
+	comp, err := h.Compress(p)
+	back, err2 := h.Decompress(deflate(p)) // what the peer's compressor produced
+	var own []byte
+	var err3 error
+	if err == nil {
+		own, err3 = inflate(comp)
+	}
+	s.logf("%s compress err=%s %s decompress err=%s %s", flavour, renderErr(err), digest(comp), renderErr(err2), digest(back))
+	s.expect(err == nil && err2 == nil && err3 == nil && bytes.Equal(back, p) && bytes.Equal(own, p), "Helper.Compress/Decompress do not round-trip the %d-byte message (%v, %v, %v)", len(p), err, err2, err3)
+	s.keepResult(comp, "result of Helper.Compress")
+	s.keepResult(back, "result of Helper.Decompress")
 }
 
 // flate-writer: wsflate.Writer (kept for the whole session, Reset per message)
@@ -1777,6 +1814,7 @@ func (s *session) stepFlateReader(o op) {
 	}
 	s.logf("err=%s op=%x compressed=%t payload=%s", renderErr(err), h.OpCode, s.msgR.IsCompressed(), digest(got))
 	s.expect(err == nil && bytes.Equal(got, p), "wsflate.Reader: message not recovered (err=%v)", err)
+	s.keepResult(got, "message read through wsflate.Reader")
 }
 
 // ---------------------------------------------------------------------------
@@ -1864,6 +1902,8 @@ func (s *session) step() {
 			s.stepFlateSend(o)
 		case "flate-recv":
 			s.stepFlateRecv(o)
+		case "flate-bytes":
+			s.stepFlateBytes(o)
 		case "flate-writer-write":
 			s.stepFlateWriterWrite(o)
 		case "flate-writer-flush":
